@@ -23,6 +23,8 @@ import corpus as corpus_mod
 # --------------------------------------------------------------------------------------------------------------
 PAIRS = [
     ("eqeqeq", "E", "a == b", "a === b"),
+    ("prefer-primordials", "E", "parseInt('1')", "q9('1')"),
+    ("prefer-primordials", "E", "new Map()", "new q9()"),
     ("no-compare-neg-zero", "E", "x === -0", "x === 0"),
     ("no-cond-assign", "S", "if (x = 0) { }", "if (x === 0) { }"),
     ("no-sparse-arrays", "S", "const sparseArray = [1,,3];", "const sparseArray1 = [1,null,3];"),
@@ -261,6 +263,20 @@ EXPECTED_NON_NEUTRAL = {
     ("no-extra-boolean-cast", "while-test"): "boolean context (specification)",
     ("no-extra-boolean-cast", "do-while-test"): "boolean context (specification)",
     ("no-var", "var-initialiser"): "the context is itself a `var` declaration",
+    ("prefer-primordials", "array-destructuring-default"): "prefer-primordials targets the syntax of the context itself (iteration protocol / spread / `in`)",
+    ("prefer-primordials", "array-spread"): "prefer-primordials targets the syntax of the context itself (iteration protocol / spread / `in`)",
+    ("prefer-primordials", "assignment-pattern-array-default"): "prefer-primordials targets the syntax of the context itself (iteration protocol / spread / `in`)",
+    ("prefer-primordials", "for-await-of-head-default"): "prefer-primordials targets the syntax of the context itself (iteration protocol / spread / `in`)",
+    ("prefer-primordials", "for-in-head-array-default"): "prefer-primordials targets the syntax of the context itself (iteration protocol / spread / `in`)",
+    ("prefer-primordials", "for-of-body"): "prefer-primordials targets the syntax of the context itself (iteration protocol / spread / `in`)",
+    ("prefer-primordials", "for-of-head-array-default"): "prefer-primordials targets the syntax of the context itself (iteration protocol / spread / `in`)",
+    ("prefer-primordials", "for-of-head-member-computed"): "prefer-primordials targets the syntax of the context itself (iteration protocol / spread / `in`)",
+    ("prefer-primordials", "for-of-head-object-default"): "prefer-primordials targets the syntax of the context itself (iteration protocol / spread / `in`)",
+    ("prefer-primordials", "for-of-iterable"): "prefer-primordials targets the syntax of the context itself (iteration protocol / spread / `in`)",
+    ("prefer-primordials", "in-right"): "prefer-primordials targets the syntax of the context itself (iteration protocol / spread / `in`)",
+    ("prefer-primordials", "spread-argument"): "prefer-primordials targets the syntax of the context itself (iteration protocol / spread / `in`)",
+    ("prefer-primordials", "var-destructuring-default"): "prefer-primordials targets the syntax of the context itself (iteration protocol / spread / `in`)",
+    ("prefer-primordials", "yield-delegate"): "prefer-primordials targets the syntax of the context itself (iteration protocol / spread / `in`)",
     ("no-constant-condition", "conditional-test"): "a conditional whose branches are both constant, or a function/class/object literal, is a constant condition in a test position (specification)",
     ("no-constant-condition", "if-test"): "same: constant expression in the test of an if",
 }
@@ -276,6 +292,8 @@ EXPECTED_INTERACTIONS = [
     ("no-cond-assign", None, "assignment-pattern-object-default", "same"),
     ("no-cond-assign", None, "assignment-pattern-computed-key", "same"),
     ("no-unused-labels", None, None, "label contexts"),
+    ("prefer-primordials", "member-object", "array-element", "a member access on an array literal (specification of the rule)"),
+    ("prefer-primordials", "delete-member-object", "array-element", "same"),
 ]
 
 # Failure classes that still exist on the (repaired) tree.  They are registered in /verif/known_findings.json by the main
@@ -898,6 +916,7 @@ def c08(ctx):
         ("no-unsafe-finally", "function f() { try {} finally { ", "try {} finally { g(); }", " return 1; } }"),
         ("no-this-before-super", "class A extends B { constructor() { ", "class C { x = this.y; }", " super(); } }"),
         ("no-this-before-super", "class A extends B { constructor() { ", "class C { #x = this.y; }", " super(); } }"),
+        ("no-this-before-super", "class A extends B { constructor() { ", "class C { accessor x = this.y; }", " super(); } }"),
         ("no-this-before-super", "class A extends B { constructor() { ", "class C { static { this.y; } }", " super(); } }"),
         ("no-this-before-super", "class A extends B { constructor() { ", "class C { constructor() { this.y; } }", " super(); } }"),
         ("no-this-before-super", "class A extends B { constructor() { ", "class C { m() { this.y; } get g() { return this.y; } set s(v) { this.y = v; } }", " super(); } }"),
@@ -996,6 +1015,7 @@ def c08(ctx):
     FKT = [("no-top-level-await", "", "", "await x;", True, None, ()),
            ("no-top-level-await", "", "", "for await (const a of b) {}", True, None, ()),
            ("no-await-in-sync-fn", "", "", "await x;", True, None, ()),
+           ("no-await-in-sync-fn", "async function o() { ", " }", "await x;", False, False, ()),
            ("no-sync-fn-in-async-fn", "", "", "Deno.readTextFileSync(\"a\");", None, None, ()),
            ("no-await-in-loop", "async function o() { for (;;) { ", " } }", "await x;", True, None, ()),
            ("no-await-in-loop", "", "", "for (;;) { await x; }", True, None, ()),
